@@ -153,22 +153,27 @@ func (resp *Response) Err() error {
 		return nil
 	}
 
-	var err error
-	if resp.Error != nil {
-		err = resp.Error
-	}
-	if resp.ResponseDescription != "" {
-		if err != nil {
-			err = fmt.Errorf("%v (%w)", resp.ResponseDescription, err)
-		} else {
-			err = fmt.Errorf("%v", resp.ResponseDescription)
-		}
-	}
-
 	return &HTTPError{
 		Code: resp.Status.Code,
-		Err:  err,
+		Err:  describeError(resp.Error, resp.ResponseDescription),
 	}
+}
+
+// describeError builds the cause of a failed response or propstat from its
+// DAV:error condition element and its description, if any.
+func describeError(davErr *Error, description string) error {
+	var err error
+	if davErr != nil {
+		err = davErr
+	}
+	if description != "" {
+		if err != nil {
+			err = fmt.Errorf("%v (%w)", description, err)
+		} else {
+			err = fmt.Errorf("%v", description)
+		}
+	}
+	return err
 }
 
 func (resp *Response) Path() (string, error) {
@@ -198,6 +203,9 @@ func (resp *Response) DecodeProp(values ...interface{}) error {
 				continue
 			}
 			if err := propstat.Status.Err(); err != nil {
+				if httpErr, ok := err.(*HTTPError); ok && httpErr.Err == nil {
+					httpErr.Err = describeError(propstat.Error, propstat.ResponseDescription)
+				}
 				return newPropError(name, err)
 			}
 			if err := raw.Decode(v); err != nil {
